@@ -18,7 +18,9 @@ RULE = ("instances of 8 registered RegDom dataclasses (Leaf, Mid with a Leaf fie
         "int/str/list/dict/Any fields, Opt with `Leaf | None` and `list[Leaf]` fields; each defined with real and with "
         "postponed string annotations); field values drawn from None/bool/int (up to 64 bits)/finite float/str (ASCII, "
         "Latin, CJK, astral)/list/dict(str keys) to depth 3; dataclass-typed fields hold an instance, None, or (10%) an "
-        "ill-typed value; a separate stream puts data objects into Optional, list and Any fields; non-trivial = a nested "
+        "ill-typed value; a separate stream puts data objects into Optional, list and Any fields; a history stream defines "
+        "a fresh Outer class whose postponed annotation names a not yet defined Inner, deserialises it once (nested field "
+        "absent / null / no early call as control), then defines Inner and round-trips an Outer holding an Inner; non-trivial = a nested "
         "object, a non-ASCII string, an int beyond 2^53 or a list/dict field")
 MODELLED = ["json / cbor2 / msgpack as an abstract codec with dec (enc v) = Some v on the common domain (checked per case: the "
             "library's decode of its own encoding must equal _asdict())",
@@ -84,10 +86,57 @@ def classes():
     return _classes
 
 
+# History stream: a fresh Outer (shape of Mid, postponed annotations) is defined BEFORE its nested class exists, is
+# deserialised once ("early": "absent" = data without the nested field, "null" = nested field null; "control" = no
+# early call), then the nested class is defined and an Outer holding an Inner goes through the three codecs.
+HIST_OUTER = '''
+from __future__ import annotations
+from dataclasses import dataclass
+from typing import Any
+from hio.help.doming import RegDom, registerify
+
+@registerify
+@dataclass
+class C28HOuter{N}(RegDom):
+    leaf: C28HInner{N} = None
+    v: Any = None
+'''
+HIST_INNER = '''
+@registerify
+@dataclass
+class C28HInner{N}(RegDom):
+    a: Any = None
+    b: Any = None
+'''
+_hist_counter = [0]
+
+
+def history_classes(early):
+    """returns (class table with Inner at 4 and Outer at 5, result tree of the early call or None)"""
+    _hist_counter[0] += 1
+    N = str(_hist_counter[0])
+    name = "c28_hist_" + N
+    m = types.ModuleType(name)
+    sys.modules[name] = m
+    exec(compile(HIST_OUTER.replace("{N}", N), name, "exec"), m.__dict__)
+    outer = getattr(m, "C28HOuter" + N)
+    first = None
+    if early in ("absent", "null"):
+        d = {"v": 1} if early == "absent" else {"leaf": None, "v": 1}
+        import cbor2, msgpack
+        first = [outer._fromjson(json.dumps(d).encode()), outer._fromcbor(cbor2.dumps(d)), outer._frommgpk(msgpack.dumps(d))]
+        first = [bool(type(y) is outer and y.leaf is None and y.v == 1) for y in first]
+    exec(compile(HIST_INNER.replace("{N}", N), name, "exec"), m.__dict__)
+    inner = getattr(m, "C28HInner" + N)
+    cs = [None] * 8
+    cs[4], cs[5] = inner, outer
+    return cs, first
+
+
 # ----------------------------------------------------------------------------- trees
 # ["n"] None | ["b", bool] | ["i", int] | ["f", hex] | ["s", str] | ["l", [tree]] | ["d", [[key, tree]]] | ["o", cls, [[field, tree]]]
 
-def build(t):
+def build(t, cs=None):
     k = t[0]
     if k == "n":
         return None
@@ -96,13 +145,13 @@ def build(t):
     if k == "f":
         return float.fromhex(t[1])
     if k == "l":
-        return [build(x) for x in t[1]]
+        return [build(x, cs) for x in t[1]]
     if k == "d":
-        return {key: build(x) for key, x in t[1]}
-    return classes()[t[1]](**{f: build(x) for f, x in t[2]})
+        return {key: build(x, cs) for key, x in t[1]}
+    return (cs or classes())[t[1]](**{f: build(x, cs) for f, x in t[2]})
 
 
-def tree_of(x):
+def tree_of(x, cs=None):
     if x is None:
         return ["n"]
     if isinstance(x, bool):
@@ -114,13 +163,13 @@ def tree_of(x):
     if isinstance(x, str):
         return ["s", x]
     if isinstance(x, (list, tuple)):
-        return ["l", [tree_of(y) for y in x]]
+        return ["l", [tree_of(y, cs) for y in x]]
     if isinstance(x, dict):
-        return ["d", [[k, tree_of(v)] for k, v in x.items()]]
-    cs = classes()
+        return ["d", [[k, tree_of(v, cs)] for k, v in x.items()]]
+    cs = cs or classes()
     if type(x) in cs:
         c = cs.index(type(x))
-        return ["o", c, [[f, tree_of(getattr(x, f))] for f, _ in SCHEMA[c][1]]]
+        return ["o", c, [[f, tree_of(getattr(x, f), cs)] for f, _ in SCHEMA[c][1]]]
     raise TypeError(f"unrepresentable {type(x)}")
 
 
@@ -245,6 +294,20 @@ def directed():
             {"obj": obj(off + M, leaf=["l", [["s", "a"]]], v=["s", "a"])},
             {"obj": obj(off + M, leaf=obj(off + M, leaf=leaf), v=["i", 1])},                     # wrong class in the field
         ]
+    leaf = obj(4, a=["i", 5], b=["s", "é"])
+    for early in ("absent", "null", "control"):
+        out.append({"obj": obj(5, leaf=leaf, v=["i", 2]), "early": early})
+        out.append({"obj": obj(5, leaf=["n"], v=["l", [["i", 1]]]), "early": early})
+    return out
+
+
+def history_cases(rng, k):
+    out = []
+    for i in range(k):
+        o = rand_obj(rng, 5, 0.0, 0.0)
+        if rng.random() < 0.8:
+            o[2][0][1] = rand_obj(rng, 4, 0.0, 0.0)      # mostly a real nested object
+        out.append({"obj": o, "early": ["absent", "null", "control"][i % 3]})
     return out
 
 
@@ -253,6 +316,7 @@ def generate(rng, tier):
     out = [{"obj": rand_obj(rng, rng.randrange(8))} for _ in range(n)]
     out += [{"obj": rand_obj(rng, rng.randrange(8), 0.0, 0.0)} for _ in range(n // 2)]
     out += [{"obj": rand_obj(rng, rng.randrange(8), 0.0, 0.35)} for _ in range(n // 4)]
+    out += history_cases(rng, 60 if tier == "quick" else 600)
     return out
 
 
@@ -272,15 +336,19 @@ def _loads(kind, raw):
 
 
 def run_impl(case):
-    x = build(case["obj"])
+    cs, first = (None, None)
+    if case.get("early"):
+        assert case["obj"][1] == 5, "history cases are Outer-shaped (class 5 holding class 4)"
+        cs, first = history_classes(case["early"])
+    x = build(case["obj"], cs)
     cls = type(x)
-    obs = {"asdict": tree_of(x._asdict()), "wire": [], "back": [], "equal": []}
+    obs = {"asdict": tree_of(x._asdict(), cs), "wire": [], "back": [], "equal": [], "first": first}
     for enc, dec, kind in CODECS:
         raw = getattr(x, enc)()
-        obs["wire"].append(tree_of(_loads(kind, raw)))
+        obs["wire"].append(tree_of(_loads(kind, raw), cs))
         try:
             y = getattr(cls, dec)(raw)
-            obs["back"].append(["ok", tree_of(y)])
+            obs["back"].append(["ok", tree_of(y, cs)])
             obs["equal"].append(bool(y == x and type(y) is cls))
         except Exception as ex:
             obs["back"].append(["exc", exn_kind(ex)])
@@ -289,11 +357,14 @@ def run_impl(case):
 
 
 def oracle(case, obs):
+    if obs.get("first") and not all(obs["first"]):
+        return f"early deserialisation of the outer class (before its nested class existed) went wrong: {obs['first']}"
     if not in_domain(case["obj"]):
         return None      # a dataclass-typed field holding something that is neither None nor such an instance
     for (enc, dec, kind), eq, back in zip(CODECS, obs["equal"], obs["back"]):
         if not eq:
-            return f"{dec}({enc}(x)) != x for {kind}: got {json.dumps(back, ensure_ascii=True)[:300]}"
+            return (f"{dec}({enc}(x)) != x for {kind}" + (f" (history: early={case['early']})" if case.get("early") else "")
+                    + f": got {json.dumps(back, ensure_ascii=True)[:300]}")
     return None
 
 
@@ -318,6 +389,8 @@ def nontrivial(case, obs):
 
 
 def shrink(case):
+    if case.get("early"):
+        return
     t = case["obj"]
     for i, (f, x) in enumerate(t[2]):
         if x != ["n"]:
